@@ -22,6 +22,18 @@ CHECKS = {
         design_ref="DESIGN.md 4 C01",
         note="Trusted: TLC/SANY/Json, numpy, float32 exactness on small integers, C02's binding of the code's group action. Bounded lattice (N<=3-5, M<=3-4, dilations<=2-3).",
     ),
+    "C03": dict(
+        engine="tlc+replay",
+        technique="TLA+ spec of the invariant-filter space (orbit vectors, cancellation, character formula) model-checked per (G,d,M,k,p); the TLC-generated family is matched one-to-one, up to scalars, with get_unique_invariant_filters called on the same group matrices",
+        category="model_checking",
+        text=("Per instance TLC checks: G is closed; every spec family member is fixed by every g; supports are pairwise "
+              "disjoint (independence); |Family|*|G| equals the character sum (completeness by dimension count, an independent "
+              "computation). The code's family (both scalings) must be in bijection with the spec family, each code filter a "
+              "non-zero multiple of one orbit vector: so the code family is invariant, independent and complete exactly when "
+              "the match succeeds. Each instance is decided exactly; no continuous quantifier."),
+        design_ref="DESIGN.md 4 C03",
+        note="Trusted: TLC/SANY/Json, numpy; proportionality tested to 1e-5 because the library normalises in float32. Instances bounded (d=2: M<=4-5,k<=3-4; d=3: M<=3,k<=2-3; M=4,5 k<=1).",
+    ),
     "C04": dict(
         engine="tlc+replay",
         technique="TLA+ definition of convolution in every mode (Convolution.tla) checked by TLC for the size formula and well-defined sources over the full option lattice; TLC-computed tap tables and integer convolutions replayed exactly into geom.convolve / convolve_ravel / convolve_contract / convolve_with",
